@@ -39,8 +39,8 @@ check('C28', title='Loggers write every accepted line exactly once, in order',
            'the stream does not change after stop() returned; no deadlock, livelock, crash or sanitizer report.',
       level_note='k = 2 producers x 2 lines, bound 2 (quick); k = 3, bound 3 capped by the deadline (thorough). 8 producers are out of reach of exhaustive search.',
       rule='execution = one complete schedule; distinct schedules by construction; non-trivial = at least one preemption', assumptions=_SCHED,
-      parts=[dict(name='sched', harness='c28_logger', variant='schedp', quick=dict(args=['k=2', 'lines=2', 'bound=2'], deadline=100), thorough=dict(args=['k=3', 'lines=2', 'bound=3'], deadline=800)),
-             dict(name='asan', harness='c28_logger', variant='sched', quick=dict(args=['k=2', 'lines=1', 'bound=1'], deadline=60), thorough=dict(args=['k=2', 'lines=2', 'bound=2'], deadline=600))])
+      parts=[dict(name='sched', harness='c28_logger', variant='schedp', inproc=True, quick=dict(args=['k=2', 'lines=2', 'bound=2'], deadline=100), thorough=dict(args=['k=3', 'lines=2', 'bound=3'], deadline=800)),
+             dict(name='asan', harness='c28_logger', variant='sched', inproc=True, quick=dict(args=['k=2', 'lines=1', 'bound=1'], deadline=60), thorough=dict(args=['k=2', 'lines=2', 'bound=2'], deadline=600))])
 
 check('C30', title='The inter-thread queue never loses, duplicates or reorders',
       level='model_checking', engine='sched',
@@ -51,5 +51,5 @@ check('C30', title='The inter-thread queue never loses, duplicates or reorders',
            'in slot-reservation order and each producer keeps its order); a pop reports empty only if the push holding the ticket it was waiting for had not published when the pop looked; all operations complete.',
       level_note='2 producers x 2 + 1 consumer x 4 at bound 2 (quick); 2x2 + 2x2 at bound 3 and 3x1 + 2x2 at bound 2 (thorough). 4-16 threads and weaker memory orderings are not covered.',
       rule='execution = one complete schedule; non-trivial = at least one preemption', assumptions=_SCHED,
-      parts=[dict(name='p2c1', harness='c30_mpmc', variant='schedp', quick=dict(args=['p=2', 'pushes=2', 'c=1', 'pops=4', 'bound=2'], deadline=100), thorough=dict(args=['p=2', 'pushes=2', 'c=2', 'pops=2', 'bound=3'], deadline=700)),
-             dict(name='p3c2', harness='c30_mpmc', variant='schedp', thorough_only=True, thorough=dict(args=['p=3', 'pushes=1', 'c=2', 'pops=2', 'bound=2'], deadline=600))])
+      parts=[dict(name='p2c1', harness='c30_mpmc', variant='schedp', inproc=True, quick=dict(args=['p=2', 'pushes=2', 'c=1', 'pops=4', 'bound=2'], deadline=100), thorough=dict(args=['p=2', 'pushes=2', 'c=2', 'pops=2', 'bound=3'], deadline=700)),
+             dict(name='p3c2', harness='c30_mpmc', variant='schedp', inproc=True, thorough_only=True, thorough=dict(args=['p=3', 'pushes=1', 'c=2', 'pops=2', 'bound=2'], deadline=600))])
